@@ -38,8 +38,18 @@ def decompose(trs):
     return a[0], b[0], sec, a[1], a[2], b[1], b[2], sn
 
 
-def check(rep, text, cfg, layout, source):
-    d = pytrs.PLSSDesc(text, config=cfg, layout=layout, source=source)
+def check(rep, text, cfg, layout, source, usage='init'):
+    # the same guarantees must hold however the parse was triggered: at init, after wait_to_parse, or on a re-parse
+    if usage == 'init':
+        d = pytrs.PLSSDesc(text, config=cfg, layout=layout, source=source)
+    elif usage == 'wait':
+        d = pytrs.PLSSDesc(text, config=cfg, layout=layout, source=source, wait_to_parse=True)
+        d.parse()
+    else:
+        d = pytrs.PLSSDesc(text, config=cfg, layout=layout, source=source)
+        d.parse()
+        if usage == 'reparse_kw':
+            d.parse(segment=True, parse_qq=True)
     good = False
     for i, t in enumerate(d.tracts):
         dec = decompose(t.trs)
@@ -60,7 +70,7 @@ def check(rep, text, cfg, layout, source):
             elif tn is not None and rn is not None and sn is not None:
                 good = True
         if why:
-            rep.violation('failing-input', {'text': text, 'config': cfg, 'layout': layout, 'tract': i, 'trs': t.trs, 'why': why})
+            rep.violation('failing-input', {'text': text, 'config': cfg, 'layout': layout, 'usage': usage, 'tract': i, 'trs': t.trs, 'why': why})
             break
     return good
 
@@ -75,8 +85,9 @@ def run(ctx):
         cfg = descs.valid_config(r)
         layout = r.choice([None, None, None, None] + gen.LAYOUTS + ['copy_all'])
         source = r.choice([None, 'doc 1', 'x'])
+        usage = r.choice(['init', 'init', 'wait', 'reparse', 'reparse_kw'])
         try:
-            good = check(rep, text, cfg, layout, source)
+            good = check(rep, text, cfg, layout, source, usage)
         except Exception as e:  # noqa  (totality is C03's business; still a failing input for this property's observables)
             rep.violation('failing-input', {'text': text, 'config': cfg, 'layout': layout, 'why': f'raised {type(e).__name__}'})
             good = False
@@ -86,6 +97,8 @@ def run(ctx):
         rep.sample({'text': text[:160], 'config': cfg, 'layout': layout}, cap=4)
         if i % 3 == 0 or ctx.thorough:
             items.append(descs.corr_item(text, layout=layout, cfg=cfg, src=source))
+        if usage != 'init' and i % 2 == 0:
+            items.append(descs.corr_item(text, layout=layout, cfg=cfg, src=source, wait=True, kw={}))
     ctx.compare(items)
 
 
